@@ -180,15 +180,17 @@ def check(prog, run):
     # the reported key / ASC / ASCQ sit at SPC's positions, for each of the four defined response codes
     SPC = {0x70: ((2, 3, 0), 12, 13), 0x71: ((2, 3, 0), 12, 13), 0x72: ((1, 3, 0), 2, 3), 0x73: ((1, 3, 0), 2, 3)}
     for rc, (keypos, ascpos, ascqpos) in SPC.items():
-        for valid in (0x00, 0x80):
-            def th2(rc=rc, valid=valid):
+        # (the sense buffer as a bytearray, and -- with the VALID bit clear -- as the bytes / memoryview a binding may hand over)
+        for valid, form in ((0x00, None), (0x80, None), (0x00, "bytes"), (0x00, "memoryview")):
+            def th2(rc=rc, valid=valid, form=form):
                 buf = Buf(cells=[rc | valid] + [mem_byte("sense", (None, i)) for i in range(1, 32)])
+                buf.pytype = form
                 e = I.instantiate(cls, [buf], {}, None, _F())
                 s_ = I.call_function(strf, [e], {}, None, _F())
                 fm = [ev for ev in I.events if ev["kind"] == "str-format"]
                 return e, fm
             ps = I.explore(th2, max_paths=16)
-            c = "response code %#x" % (rc | valid)
+            c = "response code %#x%s" % (rc | valid, (" (sense given as %s)" % form) if form else "")
             for p in ps:
                 if not p.returned:
                     run.violation("sense-error-constructible-and-printable", "SCSICheckCondition %s" % c, "raises %s" % p.raised.describe(),
